@@ -11,8 +11,12 @@ seed=$wt/_seed
 pkgdir=$(python3 -c "import json;print(json.load(open('$seed/meta.json'))['demo_pkg_dir'])")
 demos=$(python3 -c "import json;print(' '.join(json.load(open('$seed/meta.json'))['demo_files']))")
 log=/tmp/seedcheck-$name.log; : > $log
-pkgs=$(grep '^+++ b/' $seed/patch.diff | sed 's|^+++ b/||' | xargs -n1 dirname | sort -u | sed 's|^|./|')
-run_demo() { for d in $demos; do cp $seed/$d $pkgdir/zz_seed_$d; done; go test -vet=off -count=1 -timeout 600s -run 'TestSeedDemo' ./$pkgdir/ >>$log 2>&1; rc=$?; for d in $demos; do rm -f $pkgdir/zz_seed_$d; done; return $rc; }
+pkgs=$(grep '^+++ b/' $seed/patch.diff | sed 's|^+++ b/||' | grep '\.go$' | xargs -n1 dirname | sort -u | sed 's|^|./|')
+runre=$(python3 -c "
+import json,re
+m=json.load(open('$seed/meta.json')); r=re.search(r'-run[ =]+[\'\"]?([^\'\" ]+)', m.get('demo_cmd',''))
+print(r.group(1) if r else 'TestSeedDemo|TestDemo')")
+run_demo() { for d in $demos; do cp $seed/$d $pkgdir/zz_seed_$d; done; go test -vet=off -count=1 -timeout 600s -run "$runre" ./$pkgdir/ >>$log 2>&1; rc=$?; for d in $demos; do rm -f $pkgdir/zz_seed_$d; done; return $rc; }
 echo "== demo on unmodified tree" >>$log
 run_demo; pass_without=$?
 git apply $seed/patch.diff || { echo "patch does not apply" >>$log; exit 2; }
